@@ -1,6 +1,14 @@
 import Qryn.Proofs.BatcherProgress
 import Qryn.Proofs.Handler
+import Qryn.Proofs.ErrorHandler
+import Qryn.Proofs.BatcherLocks
+import Qryn.Proofs.BatcherLate
+import Qryn.Proofs.PromiseModel
 import Qryn.Gen.Inserts
+import Qryn.Gen.ErrorHandler
+import Qryn.Gen.BatcherLocks
+import Qryn.Gen.Promise
+import Qryn.Gen.PostChains
 /-! # C01 — a push is acknowledged only after ClickHouse accepted all of its rows
 
 Property theorems only. Model: `Qryn.Ingest.Batcher` — `InsertServiceV2` as a state machine whose steps are
@@ -230,6 +238,347 @@ theorem push_ok_rows_inserted (k : Kind) (maxQueue svcNum attempts : Nat) (R : R
   rcases ack_sound k maxQueue svcNum R ops hW pre post (ids n) he with h | ⟨b, w, hb, hc⟩
   · exact Or.inl h
   · exact Or.inr ⟨b, w, by rw [he]; exact List.mem_append.mpr (Or.inl hb), hc⟩
+
+
+/-! ## the answer: `ErrorHandler` (error value → status, or nothing), `doPush`/`doParse` with error texts
+
+Model: `Qryn.Ingest.ErrorHandler`. `Gen.ErrorHandler` is regenerated from `writer/controller/builder.go`
+(`ErrorHandler` as an ordered rule table incl. the branch that returns WITHOUT writing a status — net/http then
+answers 200 —, `writeErrorResponse`, `Build`'s handler), from the pinned retry-go's `Error.Error()` (module cache)
+and from `writer/utils/errors/error.go` (codes of the typed errors). -/
+section answer
+open Qryn.Ingest.ErrorHandler
+
+/-- the rule table, the retry-go text format the theorems below are about are the ones the source has now -/
+theorem error_rules_eq_gen :
+    rules = Gen.ErrorHandler.rules ∧ retryFmt = Gen.ErrorHandler.retryFmt ∧
+    Gen.ErrorHandler.writeHeaderFirst = true ∧ Gen.ErrorHandler.handlerCallsErrorHandlerOnError = true := by
+  decide
+
+/-- **error_rules_safe** (decided on the regenerated table). No rule of `ErrorHandler` can turn an untyped error
+    whose text starts with retry-go's header `"All attempts fail:\n"` or with `"panic: "` — and continues
+    *arbitrarily* — into anything but a 4xx/5xx status: typed guards do not apply, a prefix guard must be
+    incompatible with both headers unless it writes an error status itself, every `Contains`/`HasSuffix` guard
+    must write an error status (the attempts' texts are the database's), and the tail writes one. -/
+theorem error_rules_safe :
+    tableSafe Gen.ErrorHandler.retryFmt.header Gen.ErrorHandler.rules = true ∧
+    tableSafe panicHeader Gen.ErrorHandler.rules = true := by
+  decide
+
+/-- every typed error the writer constructs carries a 4xx/5xx code -/
+theorem typed_codes_are_errors : ∀ c ∈ Gen.ErrorHandler.typedCodes, 400 ≤ c ∧ c ≤ 599 := by decide
+
+/-- **insert_failure_never_silent.** For EVERY number of attempts and EVERY list of per-attempt error texts
+    (whatever ClickHouse, the network or the service said — "connection reset by peer" included, anywhere), the
+    `retry.Error` that `doPush` hands back after exhausted retries is answered with status 500 by the regenerated
+    rule table: never the silent branch, never a success status. The same for a recovered panic of the push. -/
+theorem insert_failure_never_silent (errs : List Text) (t : Text) :
+    classify Gen.ErrorHandler.rules (retryErr Gen.ErrorHandler.retryFmt errs) = .status 500 ∧
+    classify Gen.ErrorHandler.rules (panicErr t) = .status 500 := by
+  rw [← error_rules_eq_gen.1, ← error_rules_eq_gen.2.1]
+  exact ⟨classify_pushErr_500 retryFmt (by decide) _ (Or.inl ⟨errs, rfl⟩),
+         classify_pushErr_500 retryFmt (by decide) _ (Or.inr ⟨t, rfl⟩)⟩
+
+/-- the same from the safety predicate alone, for any rule table (so for any future shape of `ErrorHandler`
+    that keeps `error_rules_safe` true): an error status, whatever the texts -/
+theorem insert_failure_error_status_of_safe (rs : List Rule) (f : RetryFmt)
+    (h : tableSafe f.header rs = true ∧ tableSafe panicHeader rs = true) (attempts : Nat) (p : PushT) (e : ErrVal)
+    (he : doPushT f attempts p = some e) : ∃ c, classify rs e = .status c ∧ 400 ≤ c ∧ c ≤ 599 :=
+  classify_pushErr f rs h.1 h.2 e (doPushT_isPushErr f attempts p e he)
+
+/-- **exhausted_retries_error_value.** If every one of the `attempts` promises is completed with an error
+    (texts `ts 0, ts 1, …`), `doPush` returns exactly the `retry.Error` of these texts, in order. -/
+theorem exhausted_retries_error_value (attempts : Nat) (p : PushT) (ts : Nat → Text) (hr : p.hasReq = true)
+    (hs : p.hasSvc = true) (h : ∀ k, k < attempts → p.out k = .fail (ts k)) :
+    doPushT Gen.ErrorHandler.retryFmt attempts p =
+      some (retryErr Gen.ErrorHandler.retryFmt ((List.range attempts).map ts)) := by
+  have := retryFromT_exhausted Gen.ErrorHandler.retryFmt p.out ts attempts 0 [] (by simpa using h)
+  simpa [doPushT, hr, hs] using this
+
+/-- **insert_failure_status_500** (handler level). If the parser reported no error and some `doPush` of some
+    chunk failed — exhausted retries with any error texts, or a panic — the handler answers 500. -/
+theorem insert_failure_status_500 (attempts okStatus : Nat) (chunks : List ChunkT)
+    (hparse : ∀ c ∈ chunks, ∃ ps, c = ChunkT.response ps)
+    (hfail : ∃ ps p, ChunkT.response ps ∈ chunks ∧ p ∈ ps ∧ doPushT Gen.ErrorHandler.retryFmt attempts p ≠ none) :
+    handlerT Gen.ErrorHandler.rules Gen.ErrorHandler.retryFmt attempts none okStatus chunks = .status 500 := by
+  rw [← error_rules_eq_gen.1, ← error_rules_eq_gen.2.1] at *
+  exact handlerT_push_failure retryFmt (by decide) attempts okStatus chunks hparse hfail
+
+/-- **answer_total.** The status decision is total and closed: with request-side errors (pre-request steps,
+    parser) of the shapes the writer can construct (`Shape`: untyped, `*UnMarshalError`, `*QrynError`, codes from
+    the regenerated list) the handler answers the route's ok status — only when no pre-request step failed and
+    `doParse` returned nil —, or 500, or the code of a typed request-side error, or nothing (→ 200) — the last
+    ONLY for an untyped request-side error whose text begins with "connection reset by peer" (the client went
+    away while its body was read), never for an error of the push path. `WriteHeader` never faults. -/
+theorem answer_total (attempts okStatus : Nat) (pre : Option ErrVal) (chunks : List ChunkT)
+    (hpre : ∀ e, pre = some e → Shape Gen.ErrorHandler.typedCodes e)
+    (hch : ∀ e, ChunkT.error e ∈ chunks → Shape Gen.ErrorHandler.typedCodes e) :
+    let a := handlerT Gen.ErrorHandler.rules Gen.ErrorHandler.retryFmt attempts pre okStatus chunks
+    (a = answerOf okStatus ∧ pre = none ∧ doParseT Gen.ErrorHandler.retryFmt attempts chunks [] = none) ∨
+    a = .status 500 ∨ (∃ c ∈ Gen.ErrorHandler.typedCodes, a = .status c) ∨
+    (a = .silent ∧ ∃ e, (pre = some e ∨ (pre = none ∧ ChunkT.error e ∈ chunks)) ∧ e.as = [] ∧
+        resetText.isPrefixOf e.text = true) := by
+  rw [← error_rules_eq_gen.1, ← error_rules_eq_gen.2.1]
+  exact handlerT_cases retryFmt (by decide) (fun c hc => by have := typed_codes_are_errors c hc; omega)
+    attempts okStatus pre chunks hpre hch
+
+/-- **success_status_implies_pushed.** If the client is told success (a status below 400; a handler that
+    writes nothing counts as 200) and no request-side error is of the "client went away" class, then no
+    pre-request step failed, the parser reported no error and EVERY `doPush` of every chunk ended without error —
+    hence (`status_ok_iff_all_chunks_ok`, `push_ok_rows_inserted`) the outcome-only handler model answers success
+    and the rows were in accepted INSERTs. -/
+theorem success_status_implies_pushed (attempts okStatus : Nat) (pre : Option ErrVal) (chunks : List ChunkT)
+    (hpre : ∀ e, pre = some e → Shape Gen.ErrorHandler.typedCodes e)
+    (hch : ∀ e, ChunkT.error e ∈ chunks → Shape Gen.ErrorHandler.typedCodes e)
+    (hgone : ∀ e, (pre = some e ∨ ChunkT.error e ∈ chunks) → e.as = [] → resetText.isPrefixOf e.text = false)
+    (hs : isSuccess (handlerT Gen.ErrorHandler.rules Gen.ErrorHandler.retryFmt attempts pre okStatus chunks) = true) :
+    pre = none ∧ (∀ c ∈ chunks, ∃ ps, c = ChunkT.response ps) ∧
+    (∀ ps, ChunkT.response ps ∈ chunks → ∀ p ∈ ps, doPushT Gen.ErrorHandler.retryFmt attempts p = none) ∧
+    handler attempts true (chunks.map ChunkT.erase) = [.success] := by
+  have key : pre = none ∧ doParseT Gen.ErrorHandler.retryFmt attempts chunks [] = none := by
+    rcases answer_total attempts okStatus pre chunks hpre hch with ⟨_, h1, h2⟩ | h | ⟨c, hc, h⟩ | ⟨_, e, hw, has, hp⟩
+    · exact ⟨h1, h2⟩
+    · rw [h] at hs; simp [isSuccess, observed] at hs
+    · rw [h] at hs
+      have := typed_codes_are_errors c hc
+      simp only [isSuccess, observed, decide_eq_true_eq] at hs
+      omega
+    · have : resetText.isPrefixOf e.text = false := hgone e (by rcases hw with h | ⟨_, h⟩; exact Or.inl h; exact Or.inr h) has
+      rw [this] at hp; cases hp
+  obtain ⟨h1, h2, h3⟩ := (doParseT_none_iff _ attempts chunks []).mp key.2
+  refine ⟨key.1, h1, h3, ?_⟩
+  rw [status_ok_iff_all_chunks_ok]
+  refine ⟨rfl, ?_, ?_⟩
+  · intro c hc
+    obtain ⟨ct, hct, rfl⟩ := List.mem_map.mp hc
+    obtain ⟨ps, rfl⟩ := h1 ct hct
+    exact ⟨_, rfl⟩
+  · intro ps hps p hp
+    obtain ⟨pts, hpts, rfl⟩ := erase_mem hps
+    obtain ⟨pt, hpt, rfl⟩ := List.mem_map.mp hp
+    exact doPushT_none_erase _ attempts pt (h3 pts hpts pt hpt)
+
+/-- without panics the text-carrying `doPush` and the outcome-only one agree on success -/
+theorem push_models_agree (attempts : Nat) (p : PushT) (hpf : p.panicFree) :
+    (doPushT Gen.ErrorHandler.retryFmt attempts p).isNone = ((doPush attempts p.erase).1 == .ok) :=
+  doPushT_erase_panicFree _ attempts p hpf
+
+/-- a `Contains` guard in the place of the `HasPrefix` one (seeded change C01-4) is rejected by the safety
+    predicate, and for a good reason: an INSERT that keeps failing with a reset connection would be answered
+    with nothing, i.e. 200 -/
+theorem contains_variant_counterexample :
+    let rs : List Rule := [.typed "*customErrors.UnMarshalError", .typed "customErrors.IQrynError",
+                           .text .contains resetText .silent, .otherwise (.write 500)]
+    tableSafe retryFmt.header rs = false ∧
+    isSuccess (handlerT rs retryFmt 2 none 204
+      [.response [⟨true, true, fun _ => .fail ([119, 114, 105, 116, 101, 58, 32] ++ resetText)⟩]]) = true := by
+  decide
+
+/-- non-vacuity: the text of a two-attempt failure is the one retry-go prints
+    ("All attempts fail:\n#1: EOF\n#2: EOF"), and the handler answers 500 -/
+example :
+    retryText retryFmt [[69, 79, 70], [69, 79, 70]] =
+      [65, 108, 108, 32, 97, 116, 116, 101, 109, 112, 116, 115, 32, 102, 97, 105, 108, 58, 10,
+       35, 49, 58, 32, 69, 79, 70, 10, 35, 50, 58, 32, 69, 79, 70] ∧
+    handlerT rules retryFmt 2 none 204 [.response [⟨true, true, fun _ => .fail [69, 79, 70]⟩]] = .status 500 := by
+  decide
+
+/-- the silent branch exists and is reachable by a request-side error only: a body read that fails with a text
+    beginning "connection reset by peer" is answered with nothing (200) — there is no client left to read it -/
+example : handlerT rules retryFmt 2 (some { text := resetText }) 204 [] = .silent := by decide
+
+/-- a typed parser error keeps its code -/
+example :
+    handlerT rules retryFmt 2 none 204
+      [.error { as := [("*customErrors.UnMarshalError", 400), ("customErrors.IQrynError", 400)], text := [] }]
+      = .status 400 := by decide
+
+end answer
+
+
+/-! ## the atomic steps are the lock holds of the source (`Gen.BatcherLocks`; see also `Props/C02`) -/
+section locks
+open Qryn.Ingest.BatcherLocks
+
+/-- the facts the atomic-step convention needs hold of the regenerated critical sections (`C02.locks_atomic`
+    spells them out) -/
+theorem locks_atomic :
+    atomicSwap Gen.BatcherLocks.methods Gen.BatcherLocks.swapProgram Gen.BatcherLocks.requestProgram = true ∧
+    Gen.BatcherLocks.iterationProgram = iterationAsModelled := by
+  decide
+
+/-- **ack_sound, hold by hold.** With `swapBuffers` running as the regenerated sequence of lock holds and
+    requests / flush triggers of other goroutines arriving anywhere between two holds, a promise is still completed
+    without error only after a `client.Do` that returned nil for a block containing all its values. -/
+theorem ack_sound_locks (k : Kind) (maxQueue : Nat) (R : ReqId → Req) (ops : List MOp)
+    (hW : ∀ op ∈ ops, MWellFormed R op) :
+    AckSound (planOf k) R (mrun Gen.BatcherLocks.swapProgram (MSvc.init (planOf k) maxQueue) ops).2 := by
+  have hat : atomicProg Gen.BatcherLocks.swapProgram = true := by decide
+  have href := (mrun_refines (shape_of_atomic _ hat) ops (MSvc.init (planOf k) maxQueue) _ (Rel.idle _)).1
+  rw [href]
+  exact Sound.ackSound _ (run_sound (plans_ok k) _ _ (init_inv maxQueue) (absRun_wellFormed ops _ hW) []).2
+
+/-- the two-hold split of seeded change C02-1 breaks it: request 2 is acknowledged although the only INSERT that
+    carried its rows failed (the run of `C02.two_hold_split_counterexample`) -/
+theorem two_hold_split_ack_counterexample :
+    ¬ AckSound samplesPlan
+        (fun id => { id := id, ptype := .timeSamplesData, size := 30,
+                     arrays := [("MTimestampNS", [10 * id]), ("MFingerprint", [10 * id + 1]), ("MType", [10 * id + 2]),
+                                ("MValue", [10 * id + 3]), ("MMessage", [10 * id + 4])] })
+        [.insert [("type", [12, 22]), ("fingerprint", [11, 21]), ("timestamp_ns", [10, 20]), ("string", [14, 24]), ("value", [13, 23])] [1] .err,
+         .resolved 1 .err,
+         .insert [("type", []), ("fingerprint", []), ("timestamp_ns", []), ("string", []), ("value", [])] [2] .ok,
+         .resolved 2 .ok] := by
+  intro h
+  rcases h [.insert [("type", [12, 22]), ("fingerprint", [11, 21]), ("timestamp_ns", [10, 20]), ("string", [14, 24]), ("value", [13, 23])] [1] .err,
+            .resolved 1 .err,
+            .insert [("type", []), ("fingerprint", []), ("timestamp_ns", []), ("string", []), ("value", [])] [2] .ok] [] 2 rfl with h0 | ⟨b, w, hb, hc⟩
+  · simp only [NoRows] at h0; revert h0; decide
+  · simp only [List.mem_cons, Event.insert.injEq, reduceCtorEq, and_false, false_or, List.not_mem_nil, or_false] at hb
+    obtain ⟨rfl, _, _⟩ := hb
+    have := hc "type" (by decide)
+    revert this
+    decide
+
+/-- the documented limit as a regenerated fact: `Request` reads `svc.running` before it takes the lock (the first
+    segment of `Request` is free and reads exactly `running`), while `Run`'s stop branch writes it under the lock —
+    a data race the model does not exhibit (it reads `running` inside the atomic step) -/
+theorem running_read_outside_lock :
+    ((findMethod Gen.BatcherLocks.methods "Request").bind (·.segs.head?)) = some (.free ⟨["running"], [], []⟩) := by
+  decide
+
+end locks
+
+
+/-! ## `Request` whose unlocked `running` check passed just before the stop (`requestProgram`: the check is free) -/
+section late
+open Qryn.Ingest.BatcherLocks
+
+/-- **ack_sound with late requests.** Let any number of `Request` calls run their hold on a service that has
+    stopped meanwhile (they read `svc.running` before taking the lock): acknowledgements stay sound — a promise is
+    completed without error only after an accepted INSERT that contained its rows. The unlocked read costs
+    liveness at shutdown (`stopped_service_completes_nothing`), never safety. -/
+theorem ack_sound_late (k : Kind) (maxQueue : Nat) (R : ReqId → Req) (ops : List LOp)
+    (hW : ∀ op ∈ ops, LWellFormed R op) :
+    AckSound (planOf k) R (lrun (Svc.init (planOf k) maxQueue) ops).2 :=
+  Sound.ackSound _ (lrun_sound (plans_ok k) ops _ (init_inv maxQueue) hW []).2
+
+/-- **stopped_service_completes_nothing** (the shutdown limit of `resolve_eventually`, as a theorem). Once `Run`
+    has returned, whatever happens afterwards — refused requests, late requests (which are QUEUED), triggers,
+    connects, swaps, `Do` results, pings — no queued promise is ever completed: a `doPush` whose `Request` slipped
+    past the check waits forever. Liveness is claimed while the service runs. -/
+theorem stopped_service_completes_nothing (s : Svc) (hrun : s.running = false) (hinf : s.inflight = none) (id : ReqId)
+    (ops : List LOp) (hid : ∀ op ∈ ops, op.reqId ≠ some id) : ∀ o, Event.resolved id o ∉ (lrun s ops).2 :=
+  stopped_never_resolves ops s hrun hinf id hid
+
+/-- concretely: stop, then a late request with one row — it is queued (`pending = [7]`), a full flush round later it
+    still is, and nothing was ever emitted -/
+example :
+    let r : Req := { id := 7, ptype := .timeSamplesData, size := 30,
+                     arrays := [("MTimestampNS", [1]), ("MFingerprint", [2]), ("MType", [3]), ("MValue", [4]), ("MMessage", [5])] }
+    let res := lrun (Svc.init samplesPlan 0)
+      [.op .stop, .late r, .op (.trigger .timer), .op (.connect true), .op .swap, .op (.doResult .ok)]
+    res.2 = [] ∧ res.1.pending = [7] := by
+  decide
+
+end late
+
+/-! ## `promise.Promise`, statement by statement (`Qryn.Ingest.PromiseModel`, `Gen.Promise`) -/
+section promise
+open Qryn.Ingest
+
+/-- the statement order of `Done` (compare-and-swap guard, `res`, `err`, `close`) and of `Get` (receive, then the
+    fields) is the one in `writer/utils/promise/promise.go` now; `GetCtx` reads the fields only after its receive -/
+theorem promise_program_eq_gen :
+    PromiseModel.doneProgram = Gen.Promise.doneProgram ∧ PromiseModel.getProgram = Gen.Promise.getProgram ∧
+    Gen.Promise.getCtxReadsAfterLock = true ∧ Gen.Promise.newIsPendingOpen = true := by
+  decide
+
+/-- **promise_once_exact.** Take one fresh promise and ANY number of goroutines, each about to call
+    `Done(res, err)` with its own arguments or `Get()`. For EVERY schedule of their statements (compare-and-swap,
+    `p.res = …`, `p.err = …`, `close(p.lock)`; receive, read `res`, read `err`): the channel is never closed twice
+    (no panic); every `Get` that has returned holds the `res` AND the `err` of one and the same `Done` call — the one
+    whose compare-and-swap succeeded —, so all `Get`s agree, no value is torn between two `Done`s, and a zero value
+    is never observed. -/
+theorem promise_once_exact (ths : List PromiseModel.Th) (hF : ∀ t ∈ ths, PromiseModel.Fresh t) (sched : List Nat) :
+    (PromiseModel.run (PromiseModel.init ths) sched).c.fault = false ∧
+    ∀ (i r e : Nat), (PromiseModel.run (PromiseModel.init ths) sched).ths[i]? = some (PromiseModel.Th.get .ret r e) →
+      (PromiseModel.run (PromiseModel.init ths) sched).c.winner = some (r, e) ∧
+      ∃ j : Nat, ths[j]? = some (PromiseModel.Th.done r e .cas) := by
+  have hI := PromiseModel.run_inv sched _ (PromiseModel.init_inv ths hF)
+  refine ⟨hI.nofault, ?_⟩
+  intro i r e hi
+  have hg := hI.gets i _ r e hi
+  have hcl : (PromiseModel.run (PromiseModel.init ths) sched).c.closed = true := by
+    cases hc : (PromiseModel.run (PromiseModel.init ths) sched).c.closed with
+    | true => rfl
+    | false => have := hg.1 hc; cases this
+  have hp : (PromiseModel.run (PromiseModel.init ths) sched).c.pending = false := by
+    cases hp : (PromiseModel.run (PromiseModel.init ths) sched).c.pending with
+    | false => rfl
+    | true => have := (hI.pend hp).2.1; rw [hcl] at this; cases this
+  obtain ⟨w, hw, _, _⟩ := hI.won hp
+  obtain ⟨h1, h2⟩ := hg.2 w hw
+  have hwe : w = (r, e) := by
+    have a := h1 (Or.inr rfl); have b := h2 rfl
+    cases w; simp_all
+  subst hwe
+  refine ⟨hw, ?_⟩
+  obtain ⟨j, pc, hj⟩ := hI.origin _ hw
+  obtain ⟨pc', hj'⟩ := PromiseModel.run_done_args sched _ j r e pc hj
+  have := hF _ (List.mem_of_getElem? hj')
+  simp only [PromiseModel.Fresh] at this
+  subst this
+  exact ⟨j, hj'⟩
+
+/-- **promise_closed_stable.** Once the promise is closed nothing a later statement of any goroutine does changes
+    `res`, `err`, the winner or the closed flag — whatever the schedule. -/
+theorem promise_closed_stable (ths : List PromiseModel.Th) (hF : ∀ t ∈ ths, PromiseModel.Fresh t) (a b : List Nat)
+    (hc : (PromiseModel.run (PromiseModel.init ths) a).c.closed = true) :
+    (PromiseModel.run (PromiseModel.init ths) (a ++ b)).c = (PromiseModel.run (PromiseModel.init ths) a).c := by
+  rw [PromiseModel.run_append]
+  exact PromiseModel.run_closed b _ (PromiseModel.run_inv a _ (PromiseModel.init_inv ths hF)) hc
+
+/-- non-vacuity, and why the order of `Done`'s statements matters: two `Done`s racing with a `Get`; goroutine 1 wins
+    the compare-and-swap, goroutine 0 loses it, the `Get` returns goroutine 1's pair -/
+example :
+    (PromiseModel.run (PromiseModel.init [.done 5 0 .cas, .done 9 3 .cas, .get .wait 0 0]) [2, 1, 0, 2, 1, 1, 2, 1, 2, 2, 2]).ths
+      = [.done 5 0 .fin, .done 9 3 .fin, .get .ret 9 3] := by
+  decide
+
+end promise
+
+
+/-! ## who writes the status (`Gen.PostChains`: every ResponseWriter call of `writer/controller`, every `Build(...)`) -/
+section writers
+open Qryn.Ingest.ErrorHandler
+
+/-- **status_written_by_post_step_or_error_handler** (decided on the regenerated facts). net/http keeps the FIRST
+    status a handler writes. In `writer/controller` a ResponseWriter is written to only inside `writeErrorResponse`
+    and inside post-request steps (`withOkStatusAndBody`, `withOkStatusAndJSONBody`, the function literals given to
+    `withPostRequest`) — no pre-request step and no parser touches it, so nothing can shadow `ErrorHandler`'s status;
+    `PusherCtx.Do` runs the pre-request steps, then `DoParse`, then the post-request steps, returning the first
+    error; and every handler constructor (all 16 `Build(...)`) has exactly ONE post-request step, which writes a 2xx
+    status — after `doParse` returned nil. With `answer_total`: the status a client reads is the route's 2xx only if
+    every `doPush` returned nil, and otherwise what `ErrorHandler` decides. -/
+theorem status_written_by_post_step_or_error_handler :
+    Gen.PostChains.writeSites.all (fun s =>
+      ["writeErrorResponse", "post:withPostRequest", "post:withOkStatusAndBody", "post:withOkStatusAndJSONBody"].contains s.1) = true ∧
+    Gen.PostChains.pusherDo = ["preRequestsUntilError", "doParse", "returnOnError", "postRequestsUntilError", "returnNil"] ∧
+    Gen.PostChains.handlers.all (fun h => match h.2 with
+      | [(_, c)] => decide (200 ≤ c) && decide (c < 300)
+      | _ => false) = true ∧
+    (Gen.PostChains.handlers.lookup "PushStreamV2") = some [("withOkStatusAndBody", 204)] := by
+  decide
+
+/-- the ok status of every route is a valid `WriteHeader` argument and reads as success -/
+theorem route_ok_status_is_success (c : Nat) (h : 200 ≤ c ∧ c < 300) : answerOf c = .status c ∧ isSuccess (answerOf c) = true := by
+  have : 100 ≤ c ∧ c ≤ 999 := ⟨by omega, by omega⟩
+  refine ⟨by simp [answerOf, this], ?_⟩
+  simp only [answerOf, this, and_self, if_true, isSuccess, observed, decide_eq_true_eq]
+  omega
+
+end writers
 
 /-! ## non-vacuity -/
 
